@@ -130,9 +130,10 @@ class InducingPointKernel(Kernel):
             kernel_mat = self._cached_kernel_mat
 
         cp = self.__class__(
-            base_kernel=copy.deepcopy(self.base_kernel),
-            inducing_points=copy.deepcopy(self.inducing_points),
-            likelihood=self.likelihood,
+            base_kernel=copy.deepcopy(self.base_kernel, memo),
+            inducing_points=copy.deepcopy(self.inducing_points, memo),
+            # the copy must refer to the copied likelihood (the one the copied model holds), not to the original's
+            likelihood=copy.deepcopy(self.likelihood, memo),
             active_dims=self.active_dims,
         )
 
